@@ -208,6 +208,9 @@ def build(chk):
                 st1 = {'entries': [(k, valconv.fv_to_float(v, model)) for k, v in s1]}
                 st2 = {'entries': [(k, valconv.fv_to_float(v, model)) for k, v in parts['s']]}
                 case = {'op': 'pe_then_eval_instance', 'instance': chk.hexdict(idict, MSGI), 's1': chk.hexdict(st1, MSGS), 's2': chk.hexdict(st2, MSGS)}
+                if two_step:
+                    case['s1'] = chk.hexdict({'entries': [(k, valconv.fv_to_float(v, model)) for k, v in parts['a']]}, MSGS)
+                    case['s1b'] = chk.hexdict({'entries': [(k, valconv.fv_to_float(v, model)) for k, v in parts['b']]}, MSGS)
                 exp = c05.concrete_expected(idict, {'entries': st1['entries'] + st2['entries']})
 
                 def judge(res):
